@@ -35,6 +35,10 @@ def extremes(tf):
         ("insert an empty tag key and an empty field key", lambda db: db.insert(P(time=T0 + timedelta(seconds=57), tags={"": "v"}, fields={"": 1.0}))),
         ("update every point to the field value 10**400", lambda db: db.update_all(fields={"b": big})),
         ("update every point to time datetime.max", lambda db: db.update_all(time=datetime.max.replace(tzinfo=UTC))),
+        ("update every point to an aware time whose UTC form lies beyond datetime.max", lambda db: db.update_all(time=datetime(9999, 12, 31, 23, 30, tzinfo=timezone(timedelta(hours=-2))))),
+        ("update every point to an aware time whose UTC form lies before datetime.min", lambda db: db.update_all(time=datetime(1, 1, 1, 0, 30, tzinfo=timezone(timedelta(hours=2))))),
+        ("update the later points to an aware time whose UTC form lies beyond datetime.max", lambda db: db.update(tf.TagQuery().k != "0", time=datetime(9999, 12, 31, 23, 30, tzinfo=timezone(timedelta(hours=-2))))),
+        ("insert a point whose aware time lies, in UTC, beyond datetime.max", lambda db: db.insert(P(time=datetime(9999, 12, 31, 23, 30, tzinfo=timezone(timedelta(hours=-2))), tags={"e": "over"}, fields={"a": 1}))),
         ("update with a callable returning a field value 10**400 for the later points",
          lambda db: db.update_all(fields=lambda f, _c=[0]: (_c.__setitem__(0, _c[0] + 1) or ({"b": big} if _c[0] >= 2 else {"b": 1})))),
     ]
@@ -279,9 +283,27 @@ def direct_exceptions(ck, tf, pid="C11"):
     return n
 
 
+def direct_warnings(ck, tf):
+    """the same rule in a child process that turns warnings into errors (harness/c11_warnings.py): ordinary operations, late inserts above all"""
+    import json
+    import shutil as _shutil
+    wdir = ck.work / "warnings"
+    _shutil.rmtree(wdir, ignore_errors=True)
+    wdir.mkdir(parents=True)
+    rc, out = sh([PY, str(VERIF / "harness" / "c11_warnings.py"), str(wdir)], env=impl_env(), timeout=300)
+    _shutil.rmtree(wdir, ignore_errors=True)
+    try:
+        found = json.loads([l for l in out.splitlines() if l.startswith("[")][-1])
+    except Exception:  # noqa
+        found = [{"step": "warnings-as-errors child", "why": f"the child did not finish: {out[-300:]}"}]
+    for x in found[:1]:
+        ck.violation({"kind": "failing-input", "process": "warnings are errors in this process (warnings.simplefilter('error'), as under python -W error)", **x})
+    ck.notes.append(f"warnings-as-errors child: {len(found)} findings")
+
+
 def main(tier, seed):
     return dbtie.db_check("C11", tier, seed, PROFILE, 800, 6000, "Prop_C11",
                           "user callables and re are an environment the theorems quantify over; the tie instantiates them with the twin table",
-                          direct=lambda ck, tf: (direct(ck, tf), direct_exceptions(ck, tf)), extra_cov={"extreme_values": "points at datetime.max / near datetime.min, field values +-10**400, nan, the largest float, "
+                          direct=lambda ck, tf: (direct(ck, tf), direct_exceptions(ck, tf), direct_warnings(ck, tf)), extra_cov={"extreme_values": "points at datetime.max / near datetime.min, field values +-10**400, nan, the largest float, "
                                                     "a 70000-character tag value, empty keys, updates to such values (static and from a callable failing on later points): "
                                                     "a call that raises leaves the contents as they were; afterwards len / count / getters agree with the contents; x {memory,csv} x {auto_index}"})
